@@ -4,6 +4,7 @@
 -/
 import Proofs.Only
 import Facts.Generated
+import Proofs.PauseFlagOnly
 namespace C03
 open Esdt
 
@@ -118,5 +119,26 @@ theorem role_checks_as_in_code : Facts.roleChecks =
      ("esdtNFTCreate", "ESDTRoleNFTCreate"),
      ("esdtNFTCreate", "ESDTRoleNFTAddQuantity"),
      ("esdtNFTupdate", "ESDTRoleNFTUpdateAttributes")] := by decide
+
+/-- FULL ("global settings change only through the system contract"): the pause flag of every token — and every other
+    token-key slot of the system account — is changed by NO function other than ESDTPause / ESDTUnPause (which succeed
+    only for the ESDT system contract: `system_only`): all 21 other functions, any caller, any arguments, transfers with
+    any number of items, on every state; the one premise is App. C E6 — the system account is the global-settings store
+    and is not used as caller, receiver or destination (Proofs/PauseFlagOnly.lean: a preservation calculus through every
+    helper that writes, the multi-transfer loops by induction). -/
+theorem pause_flag_changes_only_through (f : FnId) (hf : f ≠ .esdtPause ∧ f ≠ .esdtUnPause) (env : Env) (c : Call)
+    (A : Accts) (out : VMOutput) (ctx' : Ctx) (hs : SysUntouched c) (h : exec env f c { accts := A } = .ok (out, ctx'))
+    (tok : Bytes) :
+    ctx'.accts.read systemAccountAddress (esdtKeyPrefix ++ tok) = A.read systemAccountAddress (esdtKeyPrefix ++ tok) ∧
+    pausedIn ctx'.accts (esdtKeyPrefix ++ tok) = pausedIn A (esdtKeyPrefix ++ tok) := by
+  have hr : ctx'.accts.read systemAccountAddress (esdtKeyPrefix ++ tok) = A.read systemAccountAddress (esdtKeyPrefix ++ tok) :=
+    sys_slot_step f hf env c A out ctx' hs (tokKey_esdt tok) rfl h
+  exact ⟨hr, by unfold pausedIn; rw [hr]⟩
+
+/-- non-vacuity of E6 for an ordinary call -/
+example : SysUntouched { fn := fnESDTLocalMint, caller := List.replicate 32 1, rcv := List.replicate 32 1, args := [[70, 84], [9]] } := by
+  refine ⟨by decide, by decide, fun a ha => ?_⟩
+  simp only [List.mem_cons, List.mem_nil_iff, or_false] at ha
+  rcases ha with rfl | rfl <;> decide
 
 end C03
